@@ -54,30 +54,37 @@ WriterOnNext(q) == \E h \in Handles : handles'[h].open /\ handles'[h].path = q
 Seen(e, q)   == ~WriterOnNext(q) /\ e.obs[q].st # "unobserved"
 SeenOK(e, q) == Seen(e, q) /\ e.obs[q].st = "ok" /\ files'[q].st = "ok"
 \* the call returned data the specification constrains
-GotData(e)   == res'.op \in {"read", "readhdr"} /\ res'.err = "none" /\ e.res.err = "none"
+GotData(e)   == res'.op \in {"read", "readhdr"} /\ Returned(res') /\ e.res.err = "none"
+
+\* the field structure only: the statement is silent on the byte order a reader hands the rows back in (the row
+\* tokens are identified by value), C01 decides bit-for-bit fidelity
+SameFields(d1, d2) == d1[1] = d2[1]
 
 Clauses == {"unexpected_error", "not_rejected", "read_rows", "read_descr", "read_header", "read_count", "read_delim",
-            "handle_count", "file_state", "rows", "stored_count", "header", "descr", "delim", "rejected_bytes_changed"}
+            "file_state", "rows", "stored_count", "header", "descr", "delim", "rejected_bytes_changed"}
 
 Clause(c, e) ==
-    CASE c = "unexpected_error" -> res'.err \in {"any", "rejected"} \/ e.res.err = "none"
-      [] c = "not_rejected"     -> res'.err \in {"any", "none"} \/ e.res.err # "none"
+    CASE c = "unexpected_error" -> res'.err \in {"any", "rejected", "mayreject"} \/ e.res.err = "none"
+      [] c = "not_rejected"     -> res'.err \in {"any", "none", "mayreject"} \/ e.res.err # "none"
       [] c = "read_rows"        -> (GotData(e) /\ res'.op = "read") => e.res.rows = res'.rows
-      [] c = "read_descr"       -> GotData(e) => e.res.descr = res'.descr
+      [] c = "read_descr"       -> GotData(e) => SameFields(e.res.descr, res'.descr)
       [] c = "read_header"      -> GotData(e) => e.res.hdr = res'.hdr
       [] c = "read_count"       -> GotData(e) => e.res.size = res'.size
       [] c = "read_delim"       -> GotData(e) => e.res.delim = res'.delim
-      \* a handle that reports a row count after its own successful write / open reports the total
-      [] c = "handle_count"     -> (res'.op \in {"create", "append", "open"} /\ res'.err = "none" /\ res'.size >= 0
-                                       /\ e.res.err = "none") => e.res.size \in {-1, res'.size}
-      [] c = "file_state"       -> \A q \in Paths : Seen(e, q) => e.obs[q].st = files'[q].st
+      \* a file the statement requires to exist is a readable record file; one nothing was written to is absent.
+      \* (What a path looks like after a handle was opened on it and nothing written - "blank" - is not constrained.)
+      [] c = "file_state"       -> \A q \in Paths : Seen(e, q) =>
+                                      CASE files'[q].st = "ok"      -> e.obs[q].st = "ok"
+                                        [] files'[q].st = "missing" -> e.obs[q].st = "missing"
+                                        [] OTHER                    -> TRUE
       [] c = "rows"             -> \A q \in Paths : SeenOK(e, q) => e.obs[q].rows = files'[q].rows
       [] c = "stored_count"     -> \A q \in Paths : SeenOK(e, q) => e.obs[q].size = files'[q].size
       [] c = "header"           -> \A q \in Paths : SeenOK(e, q) => e.obs[q].hdr = files'[q].hdr
-      [] c = "descr"            -> \A q \in Paths : SeenOK(e, q) => e.obs[q].descr = files'[q].descr
+      [] c = "descr"            -> \A q \in Paths : SeenOK(e, q) => SameFields(e.obs[q].descr, files'[q].descr)
       [] c = "delim"            -> \A q \in Paths : SeenOK(e, q) => e.obs[q].delim = files'[q].delim
       \* "an append whose fields are incompatible ... leaves the file's bytes unchanged"
-      [] c = "rejected_bytes_changed" -> (e.op = "append" /\ res'.err = "rejected") => e.rawsame[e.p]
+      [] c = "rejected_bytes_changed" -> (e.op = "append" /\ res'.err = "rejected" /\ files[e.p].st = "ok"
+                                            /\ Compat(files[e.p], e.chunk) # "yes") => e.rawsame[e.p]
 
 Matched(e) == Act(e) /\ \A c \in Clauses : Clause(c, e)
 
